@@ -37,6 +37,8 @@ type CertRec struct {
 	Key      string   `json:"key"`
 	Signer   string   `json:"signer"`
 	IsCA     bool     `json:"isCA"`
+	Ski      string   `json:"ski"` // subject / authority key identifier: a token of the model or "none"
+	Aki      string   `json:"aki"`
 	EKUs     []string `json:"ekus"`
 	Poison   string   `json:"poison"`
 	NotAfter int      `json:"notAfter"`
@@ -53,11 +55,17 @@ type OptRow struct {
 	OnlyCA   bool     `json:"onlyCA"`
 	EKUs     []string `json:"ekus"`
 	RejExts  []string `json:"rejExts"`
+	// a configuration AS WRITTEN (MCChainAdmissionCfg.tla): the lists of names the operator configured, in their order
+	// and with their repetitions; EKUs / RejExts are the filter they mean
+	Spelled bool     `json:"spelled"`
+	EkuList []string `json:"ekuList"`
+	ExtList []string `json:"extList"`
 }
 
 // Tables are the constants of the model.
 type Tables struct {
 	Opts  []OptRow            `json:"opts"`
+	NBase int                 `json:"nbase"` // the first NBase rows are the option table proper (0: all); configurations as written follow
 	Certs []CertRec           `json:"certs"`
 	Trust map[string][]string `json:"trust"`
 }
@@ -74,6 +82,9 @@ type Case struct {
 	Val   []int      `json:"val"`   // options under which ValidateOK
 	AdmC  []int      `json:"admC"`  // options under which add-chain admits
 	AdmP  []int      `json:"admP"`  // options under which add-pre-chain admits
+	Decoy bool       `json:"decoy"` // the search has to pass over a trusted candidate that does not link
+	Rows  []int      `json:"rows"`  // when present: the only option rows the verdict sets speak about
+	Rev   bool       `json:"rev"`   // materialization (set by the harness): trusted pool in reverse order, one roots file per certificate
 }
 
 // ---- materialization ----------------------------------------------------------------------------------------------
@@ -111,6 +122,9 @@ type world struct {
 	der    map[string][]byte    // incl. BAD
 	pools  map[string]*x509util.PEMCertPool
 	roots  map[string][]byte // PEM per trusted set
+	// the same pools written the other way round: certificates in reverse order, one PEM file per certificate
+	poolsRev map[string]*x509util.PEMCertPool
+	filesRev map[string][][]byte
 	parsed map[string]*ctx509.Certificate
 }
 
@@ -118,7 +132,7 @@ var stdEKU = map[string]stdx509.ExtKeyUsage{"server": stdx509.ExtKeyUsageServerA
 	"email": stdx509.ExtKeyUsageEmailProtection, "ipsec": stdx509.ExtKeyUsageIPSECEndSystem}
 var forkEKU = map[string]ctx509.ExtKeyUsage{"server": ctx509.ExtKeyUsageServerAuth, "client": ctx509.ExtKeyUsageClientAuth,
 	"email": ctx509.ExtKeyUsageEmailProtection, "ipsec": ctx509.ExtKeyUsageIPSECEndSystem}
-var cfgEKU = map[string]string{"server": "ServerAuth", "client": "ClientAuth", "email": "EmailProtection", "ipsec": "IPSECEndSystem", "any": "Any"}
+var cfgEKU = map[string]string{"server": "ServerAuth", "client": "ClientAuth", "email": "EmailProtection", "ipsec": "IPSECEndSystem", "any": "Any", "ts": "TimeStamping"}
 var extOID = map[string]asn1.ObjectIdentifier{"X": oidX, "Y": oidY}
 
 // the model's poison states as pki materializes them
@@ -127,7 +141,7 @@ var poisonKind = map[string]string{"none": "", "ok": "ok", "noncritical": "noncr
 
 func newWorld(ep epoch, tab *Tables, keys map[string]crypto.Signer) (*world, error) {
 	w := &world{ep: ep, tab: tab, nodes: map[string]*pki.Node{}, der: map[string][]byte{}, pools: map[string]*x509util.PEMCertPool{},
-		roots: map[string][]byte{}, parsed: map[string]*ctx509.Certificate{}}
+		roots: map[string][]byte{}, parsed: map[string]*ctx509.Certificate{}, poolsRev: map[string]*x509util.PEMCertPool{}, filesRev: map[string][][]byte{}}
 	recs := map[string]CertRec{}
 	for _, r := range tab.Certs {
 		recs[r.ID] = r
@@ -191,6 +205,7 @@ func newWorld(ep epoch, tab *Tables, keys map[string]crypto.Signer) (*world, err
 		if !ok {
 			return fmt.Errorf("no issuer for %s in the model", id)
 		}
+		o.NoAKID = r.Aki == "none" && parent != ""
 		if parent == "" {
 			w.nodes[id] = pki.NewRoot(o)
 			return nil
@@ -219,6 +234,16 @@ func newWorld(ep epoch, tab *Tables, keys map[string]crypto.Signer) (*world, err
 		}
 		if !n.Cert.NotAfter.Equal(ep.tick(r.NotAfter)) || n.Cert.IsCA != r.IsCA {
 			return nil, fmt.Errorf("materialization of %s differs from the model", r.ID)
+		}
+		// key identifiers: present where the model has one, and equal exactly where the model's tokens are
+		if (r.Ski == "none") != (len(n.Cert.SubjectKeyId) == 0) || (r.Aki == "none") != (len(n.Cert.AuthorityKeyId) == 0) {
+			return nil, fmt.Errorf("materialization of %s differs from the model: ski=%q aki=%q, certificate has %x / %x", r.ID, r.Ski, r.Aki, n.Cert.SubjectKeyId, n.Cert.AuthorityKeyId)
+		}
+		for _, p := range tab.Certs {
+			pn := w.nodes[p.ID]
+			if r.Aki != "none" && p.Ski != "none" && (r.Aki == p.Ski) != bytes.Equal(n.Cert.AuthorityKeyId, pn.Cert.SubjectKeyId) {
+				return nil, fmt.Errorf("materialization differs from the model: aki(%s) = ski(%s) is %v in the model", r.ID, p.ID, r.Aki == p.Ski)
+			}
 		}
 	}
 	for _, r := range tab.Certs {
@@ -265,6 +290,15 @@ func newWorld(ep epoch, tab *Tables, keys map[string]crypto.Signer) (*world, err
 			return nil, fmt.Errorf("trusted pool %s not loadable", name)
 		}
 		w.pools[name] = p
+		pr := x509util.NewPEMCertPool()
+		for i := len(ns) - 1; i >= 0; i-- {
+			f := pki.PEM(ns[i])
+			w.filesRev[name] = append(w.filesRev[name], f)
+			if !pr.AppendCertsFromPEM(f) {
+				return nil, fmt.Errorf("trusted pool %s not loadable", name)
+			}
+		}
+		w.poolsRev[name] = pr
 	}
 	return w, nil
 }
@@ -329,10 +363,14 @@ func optLabel(o OptRow) string {
 	if o.OnlyCA {
 		p = append(p, "onlyCA")
 	}
-	if len(o.EKUs) > 0 {
+	if o.Spelled && len(o.EkuList) > 0 {
+		p = append(p, "ekuList("+listShape(o.EkuList, "any")+")")
+	} else if len(o.EKUs) > 0 {
 		p = append(p, "eku")
 	}
-	if len(o.RejExts) > 0 {
+	if o.Spelled && len(o.ExtList) > 0 {
+		p = append(p, "rejectExtList("+listShape(o.ExtList, "")+")")
+	} else if len(o.RejExts) > 0 {
 		p = append(p, "rejectExt")
 	}
 	if len(p) == 0 {
@@ -341,10 +379,51 @@ func optLabel(o OptRow) string {
 	return strings.Join(p, "+")
 }
 
+// listShape names the class of a configured list: where the special name stands among the others, repetitions.
+func listShape(l []string, special string) string {
+	var p []string
+	if special != "" {
+		at := -1
+		for i, e := range l {
+			if e == special {
+				at = i
+				break
+			}
+		}
+		switch {
+		case at < 0:
+			p = append(p, "no-"+special)
+		case len(l) == 1:
+			p = append(p, special+"-alone")
+		case at == 0:
+			p = append(p, special+"-first")
+		case at == len(l)-1:
+			p = append(p, special+"-last")
+		default:
+			p = append(p, special+"-middle")
+		}
+	}
+	seen := map[string]bool{}
+	for _, e := range l {
+		if seen[e] {
+			p = append(p, "repeated")
+			break
+		}
+		seen[e] = true
+	}
+	if len(p) == 0 {
+		return "plain"
+	}
+	return strings.Join(p, ",")
+}
+
 func caseLabel(c Case) string {
 	t := strings.Join(c.Tags, "+")
 	if t == "" {
 		t = "base"
+	}
+	if c.Decoy && c.Ok {
+		t += ":decoy-in-pool" // a chain in order whose search has to pass over a trusted look-alike
 	}
 	return fmt.Sprintf("%s:leaf=%s:chainOK=%v", t, c.Kind, c.Ok)
 }
@@ -396,19 +475,53 @@ func (r *runner) direct(c Case, k int, w *world) {
 	for _, e := range o.EKUs {
 		ekus = append(ekus, forkEKU[e])
 	}
-	opts := ctfe.NewCertValidationOpts(w.pools[c.T], w.ep.tick(o.Now), o.RejExp, o.RejUnexp, bound(w.ep, o.Start), bound(w.ep, o.Limit), o.OnlyCA, ekus)
+	opts := ctfe.NewCertValidationOpts(w.pool(c), w.ep.tick(o.Now), o.RejExp, o.RejUnexp, bound(w.ep, o.Start), bound(w.ep, o.Limit), o.OnlyCA, ekus)
+	r.validate(c, k, w, opts, "ValidateChain", "direct", ctxt)
+}
+
+// configured: the options go through the configuration path first (LogConfig as written -> ValidateLogConfig) and what
+// it yields - key usages, NotAfter bounds - is handed to NewCertValidationOpts together with a time; this reaches the
+// configured EKU lists (with "Any") at every position of now.  Forbidden extensions cannot be handed on this way.
+func (r *runner) configured(c Case, k int, w *world) {
+	o := r.tab.Opts[k-1]
+	ctxt := map[string]any{"case": c, "opt": k, "options": o, "epoch": w.ep.name, "route": "ValidateLogConfig+ValidateChain"}
+	if o.Start >= 0 && o.Limit >= 0 && o.Limit < o.Start {
+		return // refused at configuration time ("limit before start")
+	}
+	var v *ctfe.ValidatedLogConfig
+	var err error
+	guard(r.rep, "ValidateLogConfig", ctxt, func() { v, err = Validated(instCfgV(w, c.T, o, c.Rev), 1, []string{"unread.pem"}) })
+	if err != nil || v == nil {
+		r.rep.Violate("instance:config-refused:"+optLabel(o), fmt.Sprintf("the front end refuses the configuration %+v: %v", o, err), ctxt)
+		return
+	}
+	opts := ctfe.NewCertValidationOpts(w.pool(c), w.ep.tick(o.Now), v.Config.RejectExpired, v.Config.RejectUnexpired, v.NotAfterStart, v.NotAfterLimit,
+		v.Config.AcceptOnlyCa, v.KeyUsages)
+	r.validate(c, k, w, opts, "ValidateLogConfig+ValidateChain", "configured", ctxt)
+}
+
+func (w *world) pool(c Case) *x509util.PEMCertPool {
+	if c.Rev {
+		return w.poolsRev[c.T]
+	}
+	return w.pools[c.T]
+}
+
+func (r *runner) validate(c Case, k int, w *world, opts ctfe.CertValidationOpts, site, route string, ctxt map[string]any) {
+	o := r.tab.Opts[k-1]
 	var path []*ctx509.Certificate
 	var err error
-	guard(r.rep, "ValidateChain", ctxt, func() { path, err = ctfe.ValidateChain(w.chain(c.Ch), opts) })
+	guard(r.rep, site, ctxt, func() { path, err = ctfe.ValidateChain(w.chain(c.Ch), opts) })
 	want := has(c.Val, k)
 	key := ""
 	if k == 1 || want {
-		key = "direct:" + caseLabel(c) + ":" + optLabel(o) + fmt.Sprint(want)
+		key = route + ":" + caseLabel(c) + ":" + optLabel(o) + fmt.Sprint(want)
 	}
 	r.rep.Eval(key)
+	r.count(route)
 	if (err == nil) != want {
-		r.rep.Violate(fmt.Sprintf("ValidateChain:%s:opts=%s:spec=%v", caseLabel(c), optLabel(o), want),
-			fmt.Sprintf("ValidateChain(%v) with trusted %v and options %+v: specification admits=%v, implementation error=%v", c.Ch, r.tab.Trust[c.T], o, want, err), ctxt)
+		r.rep.Violate(fmt.Sprintf("%s:%s:opts=%s:spec=%v", site, caseLabel(c), optLabel(o), want),
+			fmt.Sprintf("%s(%v) with trusted %v and options %+v: specification admits=%v, implementation error=%v", site, c.Ch, r.tab.Trust[c.T], o, want, err), ctxt)
 		return
 	}
 	if err == nil {
@@ -426,14 +539,14 @@ func (r *runner) direct(c Case, k int, w *world) {
 
 func (r *runner) instance(c Case, k int, w *world) (*Inst, bool) {
 	o := r.tab.Opts[k-1]
-	key := fmt.Sprintf("%s/%s/%d", w.ep.name, c.T, k)
+	key := fmt.Sprintf("%s/%s/%d/%v", w.ep.name, c.T, k, c.Rev)
 	r.mu.Lock()
 	in, ok := r.insts[key]
 	r.mu.Unlock()
 	if ok {
 		return in, in != nil
 	}
-	cfg := instCfg(w, c.T, o)
+	cfg := instCfgV(w, c.T, o, c.Rev)
 	var err error
 	guard(r.rep, "NewInstance", map[string]any{"options": o}, func() { in, err = NewInstance(r.dir, cfg) })
 	if err != nil {
@@ -452,9 +565,26 @@ func (r *runner) instance(c Case, k int, w *world) (*Inst, bool) {
 
 // instCfg is the configuration of a log that trusts the pool T and has the admission options o, as an operator
 // writes it.
-func instCfg(w *world, T string, o OptRow) InstCfg {
+func instCfg(w *world, T string, o OptRow) InstCfg { return instCfgV(w, T, o, false) }
+
+// instCfgV: rev writes the trusted pool the other way round (reverse order, one roots file per certificate).  A row
+// that is a configuration as written (Spelled) is passed on name by name; for a row of the option table proper, which
+// only has the filter, a canonical spelling is chosen.
+func instCfgV(w *world, T string, o OptRow, rev bool) InstCfg {
 	cfg := InstCfg{RootsPEM: w.roots[T], Start: bound(w.ep, o.Start), Limit: bound(w.ep, o.Limit), RejectExpired: o.RejExp, RejectUnexpired: o.RejUnexp,
 		AcceptOnlyCA: o.OnlyCA}
+	if rev {
+		cfg.RootFiles = w.filesRev[T]
+	}
+	if o.Spelled {
+		for _, e := range o.EkuList {
+			cfg.EKUs = append(cfg.EKUs, cfgEKU[e])
+		}
+		for _, x := range o.ExtList {
+			cfg.RejectExts = append(cfg.RejectExts, extOID[x].String())
+		}
+		return cfg
+	}
 	es := append([]string{}, o.EKUs...)
 	sort.Strings(es)
 	for i, e := range es { // "Any" last: the entries before it are read first
@@ -752,6 +882,16 @@ func TestReplay(t *testing.T) {
 		}
 	}
 	nOpts := len(tab.Opts)
+	if tab.NBase > 0 {
+		nOpts = tab.NBase
+	}
+	for _, o := range tab.Opts {
+		for _, e := range append(append([]string{}, o.EKUs...), o.EkuList...) {
+			if _, ok := cfgEKU[e]; !ok {
+				t.Fatalf("unknown EKU name %q in the option table", e)
+			}
+		}
+	}
 	var wg sync.WaitGroup
 	ch := make(chan int, 256)
 	for g := 0; g < runtime.GOMAXPROCS(0); g++ {
@@ -761,6 +901,7 @@ func TestReplay(t *testing.T) {
 			rnd := vh.Rand(int64(100 + g))
 			for i := range ch {
 				c := cases[i]
+				c.Rev = c.Rev || (i/2)%2 == 1 // (a replayed case carries its own)
 				sort.Ints(c.Val)
 				sort.Ints(c.AdmC)
 				sort.Ints(c.AdmP)
@@ -770,6 +911,8 @@ func TestReplay(t *testing.T) {
 				switch {
 				case only > 0:
 					ks = []int{only}
+				case len(c.Rows) > 0:
+					ks = c.Rows
 				case full[i]:
 					for k := 1; k <= nOpts; k++ {
 						ks = append(ks, k)
@@ -788,8 +931,11 @@ func TestReplay(t *testing.T) {
 				}
 				for _, k := range ks {
 					o := tab.Opts[k-1]
-					if len(o.RejExts) == 0 && !contains(o.EKUs, "any") {
-						r.direct(c, k, r.worlds[[]string{"past", "future"}[(i+k)%2]])
+					wk := r.worlds[[]string{"past", "future"}[(i+k)%2]]
+					if len(o.RejExts) == 0 && !contains(o.EKUs, "any") && !o.Spelled {
+						r.direct(c, k, wk)
+					} else if len(o.RejExts) == 0 {
+						r.configured(c, k, wk)
 					}
 					r.viaHTTP(c, k)
 				}
